@@ -132,7 +132,7 @@ const (
 	chNil               // nil channel
 )
 
-const consumerWait = 3 * time.Second
+const consumerWait = 45 * time.Second // only reached when a channel really was left open; long because of machine load
 
 type lookupResult struct {
 	res       []string
